@@ -376,6 +376,70 @@ fn c12_backlog(name: &'static str, pb: usize, n: usize, mask: u8, wait: bool) ->
 	}
 }
 
+static STAT_FAULT_HIT: AtomicU64 = AtomicU64::new(0);
+static STAT_REFUSED: AtomicU64 = AtomicU64::new(0);
+
+/// C16 under threads: `n` commits are logged and flushed without threads; then the real workers run while every
+/// file operation from the `j`-th of the threaded phase on fails with EIO (whichever thread issues it). Every thread
+/// must terminate (a worker stuck forever, or a `drop` that never returns, is loom's "deadlock"), a commit made
+/// afterwards returns (refused with the background error if a worker reported one), nothing panics, and after the
+/// fault is gone the database reopens with all `n` commits (they were synced before the failure).
+fn c16_faulted_workers(n: usize, mask: u8, j: i64) -> impl Fn() + Sync + Send + 'static {
+	use std::sync::atomic::Ordering::SeqCst;
+	move || {
+		ITER.fetch_add(1, Ordering::SeqCst);
+		let dir = fresh_dir();
+		crash::start(&dir);
+		parity_db::verif::set_external_workers(true);
+		let opts = options(&dir, vec![ColumnOptions::default()], true);
+		let db = Arc::new(Db::open_or_create(&opts).expect("open"));
+		for i in 0..n {
+			db.commit(vec![(0u8, key(i as u8), Some(val(8 + 40 * (i % 2), i as u8)))]).expect("commit");
+			db.process_commits().unwrap();
+			db.flush_logs().unwrap();
+		}
+		let calls0 = crash::CALLS.load(SeqCst);
+		crash::FAULT_AFTER.store(calls0 + j, SeqCst);
+		let mut workers = vec![];
+		for (wi, w) in [Worker::Log, Worker::Flush, Worker::Commit, Worker::Cleanup].into_iter().enumerate() {
+			if mask & (1 << wi) == 0 {
+				continue
+			}
+			let db = db.clone();
+			workers.push(loom::thread::spawn(move || db.verif_run_worker(w)));
+		}
+		loom::thread::yield_now();
+		// a later commit returns: accepted, or refused with the background error
+		match db.commit(vec![(0u8, key(200), Some(val(8, 200)))]) {
+			Ok(()) => (),
+			Err(_) => {
+				STAT_REFUSED.fetch_add(1, Ordering::SeqCst);
+			},
+		}
+		// reads keep returning committed data
+		for i in 0..n {
+			assert_eq!(db.get(0, &key(i as u8)).unwrap(), Some(val(8 + 40 * (i % 2), i as u8)), "read of commit {} while the fault is present", i);
+		}
+		db.verif_shutdown();
+		for w in workers {
+			w.join().unwrap();
+		}
+		let db = Arc::try_unwrap(db).ok().expect("sole owner");
+		drop(db);
+		if crash::CALLS.load(SeqCst) > calls0 + j {
+			STAT_FAULT_HIT.fetch_add(1, Ordering::SeqCst);
+		}
+		// the fault goes away
+		let _ = crash::stop();
+		let opts = options(&dir, vec![ColumnOptions::default()], false);
+		let db = Db::open(&opts).expect("reopen after the fault is gone");
+		for i in 0..n {
+			assert_eq!(db.get(0, &key(i as u8)).unwrap(), Some(val(8 + 40 * (i % 2), i as u8)), "commit {} (synced before the failure) lost after reopen", i);
+		}
+		drop(db);
+	}
+}
+
 /// C15 throttling: one commit puts the queue over its limit, then `n` more clients commit (all throttled) while
 /// the log worker drains; every commit call must return.
 fn c15_throttled_clients(n: usize, mask: u8) -> impl Fn() + Sync + Send + 'static {
@@ -809,11 +873,15 @@ fn run_child(prop: &str, tier: &str, idx: usize) -> Outcome {
 		("C15", 8) if !quick => explore("workers/3-commits-mixed", 2, wall, c15_scenario(&[100, 600, 8], false)),
 		("C15", 9) if !quick => explore("workers/second-client", 2, wall, c15_scenario(&[100], true)),
 		("C12L", 0) => explore("backlog-2-files/commit+cleanup-workers", 2, wall.min(if quick { 30.0 } else { wall }), c12_backlog("backlog-2-files/commit+cleanup-workers", 2, 2, 0b1100, false)),
-		("C12L", 1) => explore("backlog-3-files/commit+cleanup-workers", 1, wall.min(if quick { 30.0 } else { wall }), c12_backlog("backlog-3-files/commit+cleanup-workers", 1, 3, 0b1100, true)),
-		("C12L", 2) => explore("backlog-3-files/all-workers", 1, wall.min(if quick { 30.0 } else { wall }), c12_backlog("backlog-3-files/all-workers", 1, 3, 0b1111, true)),
-		("C12L", 3) if !quick => explore("backlog-3-files/commit+cleanup-workers", 2, wall, c12_backlog("backlog-3-files/commit+cleanup-workers", 2, 3, 0b1100, true)),
-		("C12L", 4) if !quick => explore("backlog-4-files/commit+cleanup-workers", 2, wall, c12_backlog("backlog-4-files/commit+cleanup-workers", 2, 4, 0b1100, true)),
+		("C12L", 1) => explore("backlog-3-files/commit+cleanup-workers", 1, wall.min(if quick { 30.0 } else { wall }), c12_backlog("backlog-3-files/commit+cleanup-workers", 1, 3, 0b1100, false)),
+		("C12L", 2) => explore("backlog-3-files/all-workers", 1, wall.min(if quick { 30.0 } else { wall }), c12_backlog("backlog-3-files/all-workers", 1, 3, 0b1111, false)),
+		("C12L", 3) if !quick => explore("backlog-3-files/commit+cleanup-workers", 2, wall, c12_backlog("backlog-3-files/commit+cleanup-workers", 2, 3, 0b1100, false)),
+		("C12L", 4) if !quick => explore("backlog-4-files/commit+cleanup-workers", 2, wall, c12_backlog("backlog-4-files/commit+cleanup-workers", 2, 4, 0b1100, false)),
 		("C12L", 5) if !quick => explore("backlog-2-files/commit+cleanup-workers", 3, wall, c12_backlog("backlog-2-files/commit+cleanup-workers", 3, 2, 0b1100, false)),
+		("C16L", i) if i < 36 => explore(&format!("backlog-3-files/commit+cleanup-workers/fault-from-op-{}", i), 1, wall, c16_faulted_workers(3, 0b1100, i as i64)),
+		("C16L", i) if !quick && (36..48).contains(&i) => explore(&format!("backlog-2-files/all-workers/fault-from-op-{}", i - 36), 1, wall, c16_faulted_workers(2, 0b1111, (i - 36) as i64)),
+		("C16L", i) if !quick && (48..84).contains(&i) => explore(&format!("backlog-3-files/commit+cleanup-workers/fault-from-op-{}", i - 48), 2, wall, c16_faulted_workers(3, 0b1100, (i - 48) as i64)),
+		("C16L", i) if !quick && (84..104).contains(&i) => explore(&format!("backlog-4-files/all-workers/fault-from-op-{}", i - 84), 1, wall, c16_faulted_workers(4, 0b1111, (i - 84) as i64)),
 		("C11L", 0) => explore("reader+pruner+writer/one-pipeline-thread", 1, wall, c11_scenario(false)),
 		("C11L", 1) => explore("reader+pruner+writer/one-pipeline-thread", 2, wall, c11_scenario(false)),
 		("C11L", 2) => explore("reader+pruner+writer/split-pipeline", 1, wall, c11_scenario(true)),
@@ -845,7 +913,7 @@ fn main() {
 		std::panic::set_hook(Box::new(|_| {}));
 		let o = run_child(&prop, &tier, idx);
 		println!("{}", json!({"name": o.name, "pb": o.pb, "schedules": o.schedules, "complete": o.complete, "failure": o.failure, "secs": o.secs,
-			"distinct_traces": STAT_TRACES.load(Ordering::SeqCst), "schedules_where_workers_logged_everything_before_join": STAT_DRAINED.load(Ordering::SeqCst), "schedules_where_a_record_was_enacted_by_the_workers": STAT_ENACTED.load(Ordering::SeqCst)}));
+			"distinct_traces": STAT_TRACES.load(Ordering::SeqCst), "schedules_in_which_the_fault_was_reached": STAT_FAULT_HIT.load(Ordering::SeqCst), "schedules_in_which_the_later_commit_was_refused": STAT_REFUSED.load(Ordering::SeqCst), "schedules_where_workers_logged_everything_before_join": STAT_DRAINED.load(Ordering::SeqCst), "schedules_where_a_record_was_enacted_by_the_workers": STAT_ENACTED.load(Ordering::SeqCst)}));
 		let _ = std::fs::remove_dir_all(scratch());
 		std::process::exit(0);
 	}
@@ -881,17 +949,19 @@ fn main() {
 	let report_prop = match prop.as_str() {
 		"C11L" => "C11".to_string(),
 		"C12L" => "C12".to_string(),
+		"C16L" => "C16".to_string(),
 		_ => prop.clone(),
 	};
 	let evidence_name = match prop.as_str() {
 		"C11L" => "C11-loom".to_string(),
 		"C12L" => "C12-loom".to_string(),
+		"C16L" => "C16-loom".to_string(),
 		_ => prop.clone(),
 	};
 	let traces_root = PathBuf::from(format!("{}/pdbloom-traces-{}", std::env::var("PDBMC_SCRATCH").unwrap_or_else(|_| "/dev/shm".into()), std::process::id()));
 	// all scenario/bound pairs in parallel, one process each
 	let mut children = vec![];
-	for idx in 0..26 {
+	for idx in 0..104 {
 		let c = std::process::Command::new(&exe).args([&prop, &tier, "--child", &idx.to_string()]).env("PDBLOOM_TRACES", traces_root.join(idx.to_string())).stdout(std::process::Stdio::piped()).stderr(std::process::Stdio::null()).spawn().unwrap();
 		children.push((idx, c));
 	}
